@@ -1,0 +1,64 @@
+//go:build verif
+
+/*
+ * Licensed to the Apache Software Foundation (ASF) under one or more
+ * contributor license agreements.  See the NOTICE file distributed with
+ * this work for additional information regarding copyright ownership.
+ * The ASF licenses this file to You under the Apache License, Version 2.0
+ * (the "License"); you may not use this file except in compliance with
+ * the License.  You may obtain a copy of the License at
+ *
+ *     http://www.apache.org/licenses/LICENSE-2.0
+ *
+ * Unless required by applicable law or agreed to in writing, software
+ * distributed under the License is distributed on an "AS IS" BASIS,
+ * WITHOUT WARRANTIES OR CONDITIONS OF ANY KIND, either express or implied.
+ * See the License for the specific language governing permissions and
+ * limitations under the License.
+ */
+
+package grpc
+
+// Verification contracts for property C07 (comment-only, tag verif): the xid carried by gRPC
+// metadata arrives unchanged in the callee's seata context (which is never a Launcher), and the
+// caller's xid is put into the outgoing metadata under constant.XidKey. The grpc metadata API and
+// the handler / invoker callbacks are the environment (assumed: arbitrary results; calls recorded).
+
+//@ ext google.golang.org/grpc/metadata.FromIncomingContext
+//@   ensures true
+//@ ext (google.golang.org/grpc/metadata.MD).Get
+//@   ensures true
+//@ ext google.golang.org/grpc/metadata.New
+//@   ensures true
+//@ ext google.golang.org/grpc/metadata.NewOutgoingContext
+//@   ensures result != nil
+//@ ext callback:handler
+//@   ensures true
+//@ ext callback:invoker
+//@   ensures true
+
+//@ func ServerTransactionInterceptor
+//@   prop C07
+//@   requires ctx != nil
+//@   plet g1 := callres("(MD).Get#1", 0)
+//@   plet x1 := ite(len(g1) > 0, g1[0], "")
+//@   plet x2 := ite(x1 == "" && called("(MD).Get#2") && len(callres("(MD).Get#2", 0)) > 0, callres("(MD).Get#2", 0)[0], "")
+//@   plet xid := ite(x1 != "", x1, x2)
+//@   ensures spellings: callarg("(MD).Get#1", 1) == constant.XidKey && (x1 == "" ==> called("(MD).Get#2") && callarg("(MD).Get#2", 1) == constant.XidKeyLowercase)
+//@   ensures handler-once: called("callback:handler#1") && !called("callback:handler#2")
+//@   plet hv := ctxvalue(callarg("callback:handler#1", 0), tm.seataContextVariable)
+//@   ensures xid: xid != "" ==> isT(hv, *tm.ContextVariable) && hv.(*tm.ContextVariable) != nil && hv.(*tm.ContextVariable).Xid == xid && hv.(*tm.ContextVariable).TxRole != tm.Launcher
+//@   ensures no-xid-no-change: xid == "" ==> callarg("callback:handler#1", 0) == ctx
+//@   ensures passthrough: result0 == callres("callback:handler#1", 0) && result1 == callres("callback:handler#1", 1)
+
+//@ func ClientTransactionInterceptor
+//@   prop C07
+//@   requires ctx != nil
+//@   let cv := ctxvalue(ctx, tm.seataContextVariable)
+//@   let seata := cv != nil
+//@   requires seata ==> isT(cv, *tm.ContextVariable) && cv.(*tm.ContextVariable) != nil
+//@   let xid := ite(seata, ite(cv.(*tm.ContextVariable).Xid != "", cv.(*tm.ContextVariable).Xid, cv.(*tm.ContextVariable).XidCopy), "")
+//@   ensures invoker-once: called("callback:invoker#1") && !called("callback:invoker#2")
+//@   ensures header: seata ==> called("NewOutgoingContext#1") && callarg("callback:invoker#1", 0) == callres("NewOutgoingContext#1", 0) && callarg("NewOutgoingContext#1", 1) == callres("New#1", 0) && callarg("New#1", 0)[constant.XidKey] == xid
+//@   ensures untouched: !seata ==> callarg("callback:invoker#1", 0) == ctx
+//@   ensures passthrough: result == callres("callback:invoker#1", 0)
